@@ -315,7 +315,9 @@ class Ctx:
       bf = os.path.join(tdir, "%s_%d.bad.json" % (stamp, j))
       with open(tf_, "w") as f:
         for ev in buckets[j]:
-          f.write(json.dumps(ev, separators=(",", ":")) + "\n")
+          # "call" (how to re-execute) and "site" (finding class) are for the harness, not for TLC
+          f.write(json.dumps({k: v for k, v in ev.items() if k not in ("call", "site", "exc")},
+                             separators=(",", ":")) + "\n")
       e = {"TRACE_FILE": tf_, "BAD_FILE": bf}
       e.update(env or {})
       # a shard normally takes seconds; TLC was once seen spinning forever on a shard that passes in
